@@ -68,9 +68,14 @@ class BaseValidator(object):
 
     def __exit__(self, exc_type, exc_val, exc_tb):
         """
-        Simply call :py:meth:`~.close()`.
+        Simply call :py:meth:`~.close()`. In case the block is left because
+        of an error, a failing check at the end does not replace this error.
         """
-        self.close()
+        try:
+            self.close()
+        except errors.CutplaceError:
+            if exc_type is None:
+                raise
 
     @property
     def cid(self):
